@@ -751,6 +751,8 @@ func jpfSortBy(arguments []interface{}) (interface{}, error) {
 	if err != nil {
 		return nil, err
 	}
+	// Sort a copy: arr is the caller's data (or a literal inside the AST).
+	arr = append([]interface{}(nil), arr...)
 	if _, ok := start.(float64); ok {
 		sortable := &byExprFloat{intr, node, arr, false}
 		sort.Stable(sortable)
